@@ -25,6 +25,7 @@
 package main
 
 import (
+	"crypto/tls"
 	"encoding/json"
 	"fmt"
 	"io"
@@ -92,6 +93,13 @@ func main() {
 	log.SetOutput(io.Discard)
 
 	pool := newPool()
+	for style := 0; style < 5; style++ { // every layout must be a pair the TLS stack loads, or the histories that use it prove nothing
+		sr := pool.serials[0]
+		if _, err := tls.X509KeyPair(pemStyled(pool.certPEM[sr], style), pemStyled(pool.keyPEM[pool.keyOf[sr]], style)); err != nil {
+			run.Inconclusive("PEM layout %d is not loadable by tls.X509KeyPair: %v", style, err)
+			run.Finish()
+		}
+	}
 
 	if f := os.Getenv("VERIF_C14_CHILD"); f != "" {
 		child(f, pool)
@@ -120,6 +128,9 @@ func main() {
 	}
 	for i, h := range hists {
 		h.ID = i
+		if !h.SlowInitial {
+			h.PEMStyle = i % 5
+		}
 	}
 
 	var (
